@@ -15,6 +15,7 @@
 #include <stdlib.h>
 #include <string.h>
 #include <unistd.h>
+#include <time.h>
 
 typedef void (*SvtVerifEmitFn)(const char *stream, const void *obj, const char *ev, int nargs,
                                const long long *args);
@@ -169,3 +170,72 @@ void vrt_trace_close(void) {
     }
 }
 
+
+/* ---- timeout discrimination (see verif_rt.h) ---- */
+#include <dirent.h>
+#include <sys/syscall.h>
+static int vrt_others_active(void) {
+    long me = (long)syscall(SYS_gettid);
+    DIR *d  = opendir("/proc/self/task");
+    if (!d)
+        return 0;
+    int            active = 0;
+    struct dirent *e;
+    while ((e = readdir(d))) {
+        if (e->d_name[0] == '.')
+            continue;
+        if (atol(e->d_name) == me)
+            continue;
+        char path[96], buf[512];
+        snprintf(path, sizeof path, "/proc/self/task/%s/stat", e->d_name);
+        FILE *f = fopen(path, "r");
+        if (!f)
+            continue;
+        size_t n = fread(buf, 1, sizeof buf - 1, f);
+        fclose(f);
+        buf[n]  = 0;
+        char *r = strrchr(buf, ')'); /* "pid (comm) S ..." */
+        if (r && r[1] == ' ' && (r[2] == 'R' || r[2] == 'D'))
+            active = 1;
+    }
+    closedir(d);
+    return active;
+}
+static double vrt_cpu_s(void) {
+    struct timespec ts;
+    if (clock_gettime(CLOCK_PROCESS_CPUTIME_ID, &ts))
+        return 0;
+    return (double)ts.tv_sec + (double)ts.tv_nsec * 1e-9;
+}
+int vrt_alarm_should_wait(unsigned period_s, int max_extensions) {
+    static int    used;
+    static double cpu_last;
+    if (used >= max_extensions)
+        return 0;
+    double cpu   = vrt_cpu_s();
+    double spent = cpu - cpu_last; /* CPU the whole process consumed during the period that just expired */
+    cpu_last     = cpu;
+    int a        = vrt_others_active();
+    if (!a) {
+        struct timespec ts = {0, 300 * 1000 * 1000};
+        nanosleep(&ts, NULL);
+        a = vrt_others_active();
+    }
+    if (!a && spent < 0.05 * (double)period_s) {
+        /* nobody else is runnable and the process (including the interrupted thread) used next to no CPU: stuck --
+         * unless the machine is so overloaded that a runnable thread may simply not have been scheduled */
+        double la = 0;
+        FILE * f  = fopen("/proc/loadavg", "r");
+        if (f) {
+            if (fscanf(f, "%lf", &la) != 1)
+                la = 0;
+            fclose(f);
+        }
+        long ncpu = sysconf(_SC_NPROCESSORS_ONLN);
+        if (!(la > 2.0 * (double)(ncpu > 0 ? ncpu : 1) && used < 2))
+            return 0;
+    }
+    used++;
+    alarm(period_s);
+    return 1;
+}
